@@ -267,28 +267,49 @@ func checkC32(p *Prog, r *Result, tier string) {
 	{
 		// manager: workloadsResourceMap[workload.ID] = workload.Resources[plugin.Name()]
 		why := "the manager does not hand each plugin its share of every workload keyed by id"
-		ast.Inspect(MR.Body, func(n ast.Node) bool {
-			rs, ok := n.(*ast.RangeStmt)
-			if !ok || rs.Value == nil || len(rs.Body.List) != 1 {
-				return true
+		// in Remap itself, or in a helper of the package that is handed the workload list
+		type pushSite struct {
+			fn *FuncNode
+			wl types.Object
+		}
+		sites := []pushSite{{MR, MR.paramObj(2)}}
+		for _, c := range MR.callsDeep(func(f *types.Func) bool { return f.Pkg() == MR.Pkg.Types }) {
+			enc := p.enclosing(MR.Pkg, c.Pos())
+			H := p.ByObj[enc.Callee(c)]
+			if H == nil || H.Body == nil || H == MR {
+				continue
 			}
-			enc := p.enclosing(MR.Pkg, rs.Body.Pos())
-			if enc.objOf(rs.X) != MR.paramObj(2) {
-				return true
-			}
-			w := enc.objOf(rs.Value)
-			if as, ok := rs.Body.List[0].(*ast.AssignStmt); ok && len(as.Lhs) == 1 {
-				_, idx := indexBaseObj(enc, as.Lhs[0])
-				ksel, ok1 := unparen(idx).(*ast.SelectorExpr)
-				vix, ok2 := unparen(as.Rhs[0]).(*ast.IndexExpr)
-				if ok1 && ok2 && enc.objOf(ksel.X) == w && ksel.Sel.Name == "ID" {
-					if vs, ok := unparen(vix.X).(*ast.SelectorExpr); ok && enc.objOf(vs.X) == w && vs.Sel.Name == "Resources" {
-						why = ""
-					}
+			for i, a := range c.Args {
+				if enc.objOf(a) == MR.paramObj(2) && H.paramObj(i) != nil {
+					sites = append(sites, pushSite{H, H.paramObj(i)})
 				}
 			}
-			return true
-		})
+		}
+		for _, ps := range sites {
+			ps := ps
+			ast.Inspect(ps.fn.Body, func(n ast.Node) bool {
+				rs, ok := n.(*ast.RangeStmt)
+				if !ok || rs.Value == nil || len(rs.Body.List) != 1 {
+					return true
+				}
+				enc := p.enclosing(MR.Pkg, rs.Body.Pos())
+				if enc.objOf(rs.X) != ps.wl {
+					return true
+				}
+				w := enc.objOf(rs.Value)
+				if as, ok := rs.Body.List[0].(*ast.AssignStmt); ok && len(as.Lhs) == 1 {
+					_, idx := indexBaseObj(enc, as.Lhs[0])
+					ksel, ok1 := unparen(idx).(*ast.SelectorExpr)
+					vix, ok2 := unparen(as.Rhs[0]).(*ast.IndexExpr)
+					if ok1 && ok2 && enc.objOf(ksel.X) == w && ksel.Sel.Name == "ID" {
+						if vs, ok := unparen(vix.X).(*ast.SelectorExpr); ok && enc.objOf(vs.X) == w && vs.Sel.Name == "Resources" {
+							why = ""
+						}
+					}
+				}
+				return true
+			})
+		}
 		r.check2(why, "PUSH", MR.Name+" / each plugin sees every workload's own resources under the workload's id", p.pos(MR.Decl), "m[workload.ID] = workload.Resources[plugin.Name()]")
 		checkRemapMerge(p, r, MR, "PUSH")
 		// calcium: ListNodeWorkloads(node.Name) -> rmgr.Remap(node.Name, workloads)
